@@ -63,6 +63,10 @@ CHECKS = {
     "C12": dict(
         text="Coq theorems: the lock-nesting relation regenerated from comm.py / nxscope.py / dev.py by the translator respects one rank order (channels lock -> device-info lock only, C12_lock_order, recomputed on every run); the receive path takes no lock; in any system where locks are requested in increasing rank there is no wait-for cycle among any number of threads (C12_no_deadlock); on an acknowledging device, after any history of configuration operations (all threads' operations, serialised by the channels lock) what the client reports equals the device's state (C12_consistent_reads, by the sync invariant); a final acknowledged write leaves the device at the last requested state. Tie + exploration: 2..4 real application threads with generated programs, delayed ACKs, a running stream and a 10 us switch interval; watchdog as deadlock detector, exceptions, every ch_is_enabled answer checked against the device, final state checked. PARTIAL: synchronisation-point granularity; real interleavings sampled, not enumerated.",
         design="3/C12", technique="Coq proof (rank argument for deadlock freedom; invariant for consistent reads) + translator-regenerated lock graph + monitored exploration of real threads"),
+    "C18": dict(
+        text="PARTIAL. Proved in Coq: over a FIFO with ANY chunking oracle (how many waiting bytes the OS reports per read, possibly 0) the reads concatenated equal the bytes sent, an idle read is empty, the bytes written are data_align p d, and - composing with the C03 refinement - a client extracts over any chunking exactly the frames it extracts over the ideal one-read link (C18_session_equivalent), which reduces the property's session claim to the pipe being a FIFO. NOT proved, explored only: that pyserial + the kernel tty layer are such a FIFO - real SerialDevice on an os.openpty() pseudo-terminal, all 256 byte values both ways, bursts up to 4096 bytes, varied writer pacing, idle-read latency, padding observed at the far end, and a full client session over the pty compared with the ideal link.",
+        design="3/C18", technique="Coq proof of the client-side logic and of the reduction to a FIFO + exploration of pyserial on a pseudo-terminal (the OS half is not provable)", category="proof",
+        note="Trusted for the proved half: Coq kernel, translator, C03 refinement. The OS/pyserial half is tested on a pty, not proved; a pty is not a UART (no baud/parity/hardware flow control)."),
 }
 PENDING = {}
 
